@@ -11,6 +11,7 @@
    their old witnesses survive as Examples of the repaired behaviour. *)
 From LedgerV Require Import Base.Prelude Base.Round Model.Amount Model.AmountText Model.Xact Model.Print
   Proofs.AmountProofs Proofs.XactProofs Proofs.PrintProofs.
+From Coq Require Import Qabs.
 Local Open Scope Q_scope.
 
 (* ---- amounts: the text print writes is exact whenever the display precision covers the decimals *)
@@ -50,6 +51,36 @@ Theorem total_cost_roundtrip : forall cp t a,
   aq (cost_total (with_keep t') a) == aq g /\ acomm (cost_total (with_keep t') a) = acomm g.
 Proof. exact PrintProofs.total_cost_roundtrip. Qed.
 Print Assumptions total_cost_roundtrip.
+
+(* the cost print shows is the cost AS WRITTEN (given_cost), whatever finalize made of the posting's cost
+   (a lot-priced posting's cost is rewritten to the lot's basis): p_cost p does not occur in the statement *)
+Theorem printed_cost_is_written_cost : forall cp xs count index first p e a g,
+  p_generated p = false -> p_calculated p = false -> p_cost_calculated p = false ->
+  p_amt p = Some a -> e_given e = Some g ->
+  exists ln, decide_post cp xs count index first (p, e) = Ok (Some ln) /\
+    (if e_in_full e || is_realzero a
+     then l_cost ln = Some (CTotal, e_cost_virtual e, read_back cp (amt_abs g))
+     else exists q, amt_div cp g a = Ok q /\
+                    l_cost ln = Some (CPerUnit, e_cost_virtual e, read_back cp (amt_abs q))).
+Proof. exact PrintProofs.printed_cost_is_written_cost. Qed.
+Print Assumptions printed_cost_is_written_cost.
+
+Theorem printed_cost_ignores_adjusted_cost : forall cp xs count index first first' p e a g c',
+  p_generated p = false -> p_calculated p = false -> p_cost_calculated p = false ->
+  p_amt p = Some a -> e_given e = Some g ->
+  exists ln ln', decide_post cp xs count index first (p, e) = Ok (Some ln) /\
+                 decide_post cp xs count index first' (set_cost p c', e) = Ok (Some ln') /\
+                 l_cost ln = l_cost ln'.
+Proof. exact PrintProofs.printed_cost_ignores_adjusted_cost. Qed.
+Print Assumptions printed_cost_ignores_adjusted_cost.
+
+Theorem printed_total_cost_quantity : forall cp xs count index first p e a g,
+  p_generated p = false -> p_calculated p = false -> p_cost_calculated p = false ->
+  p_amt p = Some a -> e_given e = Some g -> e_in_full e = true -> printable cp (amt_abs g) ->
+  exists ln t, decide_post cp xs count index first (p, e) = Ok (Some ln) /\
+               l_cost ln = Some (CTotal, e_cost_virtual e, t) /\ aq t == Qabs (aq g) /\ acomm t = acomm g.
+Proof. exact PrintProofs.printed_total_cost_quantity. Qed.
+Print Assumptions printed_total_cost_quantity.
 
 (* ---- print ; re-read ; finalize: a transaction of any length whose amounts were all written and
    which balances exactly is accepted again from the printed text, with the same accounts, kinds,
@@ -240,3 +271,23 @@ Example ex_equity :
     [mkAmt 5 2 false usd; mkAmt 3 0 false (Some [69; 85; 82]%Z); mkAmt (-5) 2 false usd]
   = Ok [mkp [65%Z] PReal (Some (mkAmt 3 0 false (Some [69; 85; 82]%Z)))].
 Proof. vm_compute. reflexivity. Qed.
+
+(* `-10 AAA {$5.00} @@ $60.00 / B`: finalize rewrites the cost to the basis $-50.00; print still shows @@ $60.00 *)
+Definition ls_amt := mkAmt (-10) 0 false (Some [65; 65; 65; 126; 123; 53; 125]%Z).
+Definition ls_cost := cost_total (with_keep (mkAmt 60 2 false usd)) ls_amt.
+Definition ls_xact : list xpost :=
+  [(mkPost [65%Z] PReal (Some ls_amt) (Some ls_cost) (Some (mkAmt 5 2 true usd)) false false false,
+    mkExtra SUncleared (Some ls_cost) true false None);
+   (mkp [66%Z] PReal None, no_extra SUncleared)].
+
+Example ex_lot_sale_prints_written_cost :
+  match finalize false cp2 None (map fst ls_xact) with
+  | Ok (Accepted ps') =>
+      map (fun p => match p_cost p with Some c => Qred (aq c) | None => 0 end) ps' = [-50; 0] /\
+      match decide cp2 SUncleared (attach ps' (map snd ls_xact)) with
+      | Ok (ln :: _) => l_cost ln = Some (CTotal, false, mkAmt 60 2 false usd)
+      | _ => False
+      end
+  | _ => False
+  end.
+Proof. vm_compute. split; reflexivity. Qed.
